@@ -41,7 +41,13 @@ theorem step_ok (c : Call) (f : File) (s : Step) (hg : ∀ g, s ≠ .guard g)
   | removeLinkIfAny => rfl
   | openLinkGroup => rfl
   | setDotype a => rfl
-  | createTargetLink => rfl
+  | createTargetLink =>
+    have h := hn .sameFile (by simp [Step.needs])
+    simp only [Guard.check] at h
+    cases ho : c.otherFile with
+    | true => simp [ho] at h
+    | false => simp [step, ho]
+  | createSelfLink => rfl
   | setCreated => rfl
   | setUpdated => rfl
   | deleteTicksIfAny => rfl
